@@ -118,7 +118,7 @@ def getattr_(ex, st, base, attr, node=None):
             return
         raise _U(f"attribute {attr} of {base}")
     base = ex.narrow(st, base)
-    if (base.ty == "obj" and attr not in ("toordinal", "as_tuple")) or (base.ty == "py" and attr in eng.OBJ_ATTRS):
+    if (base.ty == "obj" and attr not in ("toordinal", "as_tuple", "replace")) or (base.ty == "py" and attr in eng.OBJ_ATTRS):
         yield from eng.obj_attr(ex, st, base, attr)
         return
     # data method: remember the receiver expression for write-back of mutators
